@@ -392,9 +392,13 @@ class Chord(Task):
     def gen_self(self, rng):
         span = Fr(rng.randint(2, 12))
         pool = [c for c in CHORD_POOL if c in ("C:maj", "A:min", "F#:min", "Bb:maj", "D:min7", "G:7", "F:maj7", "N")]
+        base = [c for c in pool if c != "N"]
+        if rng.random() < 0.35:
+            # a plain chord next to the same shorthand with an added / omitted degree, or its extended relative
+            pool = pool + ["D:min", "D:min(b7)", "G:9", "C:maj(9)", "F:maj7(#11)", "A:min(*5)"]
         while True:
             ref = self._ann(rng, span, Fr(0), pool)
-            if any(l != "N" for l in ref[1]):
+            if any(l in base for l in ref[1]):
                 break
         # in-vocabulary for all rules incl. majmin: restrict to maj/min triads + 7ths handled by sevenths only
         return {"ref": ref, "est": [list(map(list, ref[0])), list(ref[1])]}
@@ -836,7 +840,7 @@ class Pattern(Task):
                 occ = [(t + dt, p) for t, p in base]
                 if rng.random() < 0.3 and len(occ) > 1:
                     occ = occ[:-1]
-                if dup and rng.random() < 0.12:
+                if dup and rng.random() < 0.25:
                     # the same (onset, pitch) listed twice: the occurrence is no longer a set of notes (used for the
                     # range claim only; not a non-degenerate annotation for the perfect-estimate claim)
                     occ = occ + [rng.choice(occ)]
@@ -848,6 +852,9 @@ class Pattern(Task):
         ref = self._patterns(rng, rng.choice([1, 2, 3]), dup=True)
         if rng.random() < 0.5:
             est = [[list(o) for o in p if rng.random() < 0.8] or [list(p[0])] for p in ref if rng.random() < 0.8]
+            if rng.random() < 0.5:
+                # the estimate lists each note once where the reference repeats one (and keeps the order)
+                est = [[sorted(set(o)) for o in p] for p in est]
             est = est or self._patterns(rng, 1)
             est += self._patterns(rng, rng.choice([0, 1]), dup=True)
         else:
